@@ -225,6 +225,46 @@ def gen_a(rng, ps):
 
 
 # ------------------------------------------------------------------ helpers
+def run_par(binary, lines, nproc=6, timeout=1500):
+    """run the line-protocol binary on `lines` with nproc processes (round-robin split, so that the
+    expensive big-moduli cases spread evenly); returns (rc, output lines in input order, stderr)"""
+    import subprocess
+    nproc = max(1, min(nproc, len(lines)))
+    procs = []
+    for k in range(nproc):
+        p = subprocess.Popen([binary], stdin=subprocess.PIPE, stdout=subprocess.PIPE, stderr=subprocess.PIPE, universal_newlines=True)
+        procs.append(p)
+    import threading
+    outs = [None] * nproc
+    def work(k):
+        try:
+            outs[k] = procs[k].communicate("".join(l + "\n" for l in lines[k::nproc]), timeout=timeout)
+        except subprocess.TimeoutExpired:
+            procs[k].kill()
+            outs[k] = ("", "[timeout]")
+    th = [threading.Thread(target=work, args=(k,)) for k in range(nproc)]
+    for t in th:
+        t.start()
+    for t in th:
+        t.join()
+    res = [None] * len(lines)
+    rc, err = 0, ""
+    for k in range(nproc):
+        o = outs[k][0].splitlines()
+        err += outs[k][1]
+        if procs[k].returncode != 0:
+            rc = procs[k].returncode or 1
+        idx = list(range(k, len(lines), nproc))
+        if len(o) != len(idx):
+            rc = rc or 1
+            continue
+        for i, l in zip(idx, o):
+            res[i] = l
+    if rc != 0:
+        return rc, [l for l in res if l is not None], err
+    return 0, res, err
+
+
 def groups(line):
     return [g.split() for g in line.split("|")]
 
@@ -288,6 +328,7 @@ def main(tier, replay=None):
             ml = "rns %s %d %s %s %d %d %s" % (hist, n, " ".join(map(str, ps)), " ".join(map(str, rs)), a, len(o), " ".join(map(str, o)))
         cases.append({"kind": kind, "hist": hist, "sub": sub, "ps": ps, "rs": rs, "a": a, "impl": il, "model": ml})
 
+    mlcap = 12 if quick else 33
     lens_small = [1, 1, 2, 2, 3, 3, 4, 5, 6, 7, 8, 9, 12, 16, 17]
     lens_big = [24, 31, 32, 33, 40] if quick else [24, 31, 32, 33, 40, 64, 65, 100, 150]
     # ---- IntRNSsystem
@@ -306,6 +347,8 @@ def main(tier, replay=None):
                     maxp = (1 << 63) - 1
                 if n > 17 and style in ("tiny",):
                     style = "smallprimes"
+                if style == "multilimb" and n > mlcap:
+                    n = rng.range(2, mlcap)      # cost of the extracted model ~ n^2 * bits^2 on the inductive Z
                 ps = gen_moduli(rng, n, maxp, style)
                 rs = gen_residues(rng, ps, allow_out_of_range_tail=(tt == "Integer"))
                 add_sys("int", hist, tt, ps, rs, gen_a(rng, ps))
@@ -323,6 +366,8 @@ def main(tier, replay=None):
                     style = "smallprimes"
                 if dom == "mi32" and n > 17 and style == "powers":
                     style = "smallprimes"
+                if style == "multilimb" and n > mlcap:
+                    n = rng.range(2, mlcap)
                 ps = gen_moduli(rng, n, maxp, style)
                 rs = gen_residues(rng, ps)
                 add_sys("rns", hist, dom, ps, rs, gen_a(rng, ps))
@@ -334,6 +379,8 @@ def main(tier, replay=None):
         for hist in FIX_HISTS:
             n = rng.choice([1, 2, 3, 4, 5, 6, 7, 8, 9, 11, 15, 16, 17, 31, 33] if not rng.chance(1, 6) else lens_big)
             style = rng.choice(["smallprimes", "word", "multilimb", "powers", "tiny" if n < 12 else "smallprimes"])
+            if style == "multilimb" and n > mlcap + 5:
+                n = rng.choice([2, 3, 4, 5, 7, 8, 9, 15, 16, 17])
             ps = gen_moduli(rng, n, None, style)
             rs = gen_residues(rng, ps)
             il = "fixed %s %d %s %s" % (hist, n, " ".join(map(str, ps)), " ".join(map(str, rs)))
@@ -408,7 +455,7 @@ def main(tier, replay=None):
         return chk.finish()
     mout = None
     if drv:
-        rc, mout, merr = vf.run_lines(drv, "".join(c["model"] + "\n" for c in cases), timeout=1500)
+        rc, mout, merr = run_par(drv, [c["model"] for c in cases], timeout=1500)
         if rc != 0 or len(mout) != len(cases):
             chk.broke("model driver failed (rc=%s, %d/%d lines)" % (rc, len(mout), len(cases)), merr)
             mout = None
